@@ -310,8 +310,11 @@ def write_evidence(ctx, level, coverage, assumptions, violations):
     ev = {"property_id": ctx.prop, "tier": ctx.tier, "seed": ctx.seed, "level": level,
           "coverage": coverage, "assumptions": assumptions, "wall_s": round(time.time() - ctx.t0, 1),
           "violations": violations}
-    os.makedirs(os.path.join(VERIF, "evidence"), exist_ok=True)
-    with open(os.path.join(VERIF, "evidence", ctx.prop + ".json"), "w") as f:
+    # runs against another tree than /repo (VERIF_REPO: seeded-change evaluation) must not
+    # overwrite the evidence of the registered checks
+    d = os.path.join(VERIF, "evidence") if REPO == "/repo" else os.path.join(tempfile.gettempdir(), "verif-evidence-other")
+    os.makedirs(d, exist_ok=True)
+    with open(os.path.join(d, ctx.prop + ".json"), "w") as f:
         json.dump(ev, f, indent=1)
     return ev
 
